@@ -329,7 +329,7 @@ def part_values(chk, texts):
 def part_templates(chk, texts):
     strs = list(TEMPLATES)
     strs += M.negative_cases()
-    stride = 9 if chk.quick else 1
+    stride = 3 if chk.quick else 1
     strs += [t for i, (t, _, _) in enumerate(texts) if i % stride == 0]
     seen = set()
     uniq = []
@@ -419,7 +419,8 @@ def part_utf8(chk):
         jobs.append((pre, U129, 1, b""))
         jobs.append((pre, U129, 2, b""))
         for b0 in U129:
-            jobs.append((pre + bytes([b0]), U129, 2, b""))
+            if pre == b"" or not chk.quick:
+                jobs.append((pre + bytes([b0]), U129, 2, b""))
         for b0 in range(0xF0, 0xF9):
             jobs.append((pre + bytes([b0]), R7, 3, b""))
             jobs.append((pre + b"a" + bytes([b0]), R7, 3, b"z"))
@@ -470,7 +471,7 @@ def part_utf8(chk):
 UNITS9 = [b"a", b'"', b"\\", b"\n", b"\0", b"\x7f", b"\xff", "é".encode(), "€".encode()]
 TOKENISH = [b"-", b"+", b".", b"1", b"e", b":", b"n", b"i", b"l", b"x", b"0", b"_", b"@", b"r", b"&"]
 
-JDN_CLASSES_KNOWN_SHAPE = re.compile(r"^symbol:reads-back-as-(number|nil|boolean|keyword)$")
+JDN_CLASSES_KNOWN_SHAPE = re.compile(r"^symbol:reads-back-as-(number|nil|boolean|keyword|core/s64|core/u64)$")
 
 
 def jdn_sig(cls):
@@ -497,6 +498,17 @@ def jdn_replay(cls, label_hex):
     return ("(def v %s)\n(def text (string/format \"%%j\" v))\n(printf \"printed: %%q\" text)\n"
             "(def back (parse text))\n(printf \"parsed back: %%q (type %%q), original type %%q\" back (type back) (type v))\n"
             "(unless (and (= (type back) (type v)) (deep= back v)) (print \"NOT DEEP-EQUAL\") (os/exit 1))\n" % ctor)
+
+
+def mutable_key(nd):
+    k = nd[0]
+    if k in ("struct", "table"):
+        return any(kk[0] in ("arr", "table") or (kk[0] == "atom" and kk[1][:1] == b"@") or mutable_key(kk) or mutable_key(vv) for kk, vv in nd[1])
+    if k in ("tup", "arr"):
+        return any(mutable_key(c) for c in nd[2])
+    if k == "rm":
+        return mutable_key(nd[2])
+    return False
 
 
 def part_jdn(chk):
@@ -532,16 +544,17 @@ def part_jdn(chk):
         items.append(jdn([Kw("units"), [w], 1, b""]))
     # numbers
     step = 64 if chk.quick else 16
-    for elo in range(0, 2048, step):
-        items.append(jdn([Kw("nums"), elo, min(elo + step, 2048), M.MANTISSAS]))
+    # (exponent field 2047 = inf/NaN payloads: not Janet numbers under NaN boxing; inf and the NaN are :eval items)
+    for elo in range(0, 2047, step):
+        items.append(jdn([Kw("nums"), elo, min(elo + step, 2047), M.MANTISSAS]))
     # nested data: the by-construction tree universe as literal data
     lay = M.LAYOUTS[1]
     seen = set()
     for nodes in M.tree_universe(not chk.quick):
         for nd in nodes:
             text, _ = M.render([nd], lay)
-            if text in seen or b"`" in text:
-                continue
+            if text in seen or b"`" in text or mutable_key(nd):
+                continue      # deep= looks keys up by identity: a mutable key can never be deep= to its copy
             seen.add(text)
             if all(32 <= c < 127 for c in text):
                 items.append("[:val %s true]" % text.decode())
@@ -570,10 +583,13 @@ def part_jdn(chk):
         ev.append(("(do (var x 1) (repeat %d (set x [x])) x)" % depth, True))
         ev.append(("(do (var x @{}) (repeat %d (set x @{:k x})) x)" % depth, True))
         ev.append(("(do (var x @[]) (repeat %d (set x @[x 1])) x)" % depth, True))
-        ev.append(("(do (var x {}) (repeat %d (set x {x :v})) x)" % depth, True))
+        ev.append(("(do (var x {}) (repeat %d (set x {:k x})) x)" % depth, True))
+        if depth <= 5:
+            ev.append(("(do (var x {}) (repeat %d (set x {x :v})) x)" % depth, True))
+            ev.append(("(do (var x []) (repeat %d (set x [{x [x]}])) x)" % depth, True))
     for form, must in ev:
         items.append("[:eval %s %s]" % (form, "true" if must else "false"))
-    res = run_batch("fast", D_JDN, items, chunk=40, timeout=600)
+    res = run_batch("fast", D_JDN, items, chunk=40, timeout=100)
     tot = dict(n=0, printed=0, refused=0, strict=0)
     classes = {}
     for it, (st, text) in zip(items, res):
